@@ -3,6 +3,8 @@ import Chain33Model.Proofs.C15Supply
 C15 — the exec sub-ledger: bounded growth (`SubBound`), hence no int64 wrap within 92 operations;
 exact effect of every sub-ledger operation on `subSum`; the deficit equation.
 -/
+set_option linter.unusedSectionVars false
+set_option linter.unusedSimpArgs false
 namespace C15
 section
 variable {σ κ : Type} [DecidableEq σ] [DecidableEq κ] (c : Cfg σ κ)
